@@ -3,7 +3,7 @@ use crate::util::Rng;
 use serde_json::Value;
 
 pub const LIB_NAME: &str = "m2";
-pub const LIB_TEXT: &str = "pub fn a(x) { x }\npub fn c() { 1 }\nfn p() { 2 }\npub type A { A(a: Int) C }\npub const k = 1\npub type T { W }\ntype P { Q }\npub type R { R(f: Int) }\n";
+pub const LIB_TEXT: &str = "pub fn a(x) { x }\npub fn c() { 1 }\nfn p() { 2 }\npub type A { A(a: Int) C }\npub const k = 1\npub type T { W }\ntype P { Q }\npub type I = Int\npub type R { R(f: I) }\n";
 /// The second library module: its path shares the last segment with the first, it declares the same names (ids 3001..)
 /// in another order, and it uses them itself in the extra function `s` (so a rename has to edit uses inside the library too).
 pub const SUB_NAME: &str = "sub/m2";
@@ -33,9 +33,9 @@ pub fn lib_decls_of(lib: usize) -> Vec<(u64, usize, usize)> {
         (base + 6, f("type T {", 5), 1),
         (base + 7, f("type A {", 5), 1),
         (base + 8, f("A(a: Int)", 2), 1),
-        (base + 9, f("R(f: Int)", 0), 1),
+        (base + 9, f("R(f: ", 0), 1),
         (base + 10, f("type R {", 5), 1),
-        (base + 11, f("R(f: Int)", 2), 1),
+        (base + 11, f("R(f: ", 2), 1),
     ];
     if lib == 1 {
         v.push((base + 12, f("fn mk(", 3), 2));
